@@ -48,7 +48,9 @@ TRUSTED = [
     'harness: AST->JSON translation (c19_model.ser_*), lpar/delimiter annotations read from CPython positions and source text, '
     'leaf extractor c19_model.leaves, CPython embeddings used to re-parse results',
 ]
-ASSUMPTIONS = ['one minimal witness per source kind represents the kind in the extracted matrix (the sweep covers more shapes)',
+ASSUMPTIONS = ['the model describes /repo with the repairs fixes/C19-F3..F8 applied (Ellipsis Dict key refused; left operand of | coerced '
+               'first); on a tree without them the correspondence on `{...: a}` reports the difference',
+               'one minimal witness per source kind represents the kind in the extracted matrix (the sweep covers more shapes)',
                'CPython ast.parse (through an embedding per mode) and pfst\'s own parser for the mode are the judges of '
                '"parses in the requested mode"']
 LEVEL_TEXT = ('Lean 4 theorems about an executable model of the expression<->pattern and sequence coercions: leaf sequence '
